@@ -817,4 +817,104 @@ fn u19_hash_column_maintenance_reaches_every_table() {
 	assert!(unsafe { HCP_N } == 1, "U19.hash.complete_plan_reaches_every_value_table");
 }
 
+
+// ================================================================== U20: reindex batch builder (HashColumn::reindex)
+pub(crate) static mut RB_PAGE: [[u64; 64]; 2] = [[0; 64]; 2];
+pub(crate) static mut RB_CALLS: usize = 0;
+pub(crate) static mut RB_FIRST: u64 = 0;
+pub(crate) fn stub_entries_rb<L: LogQuery>(_t: &IndexTable, chunk_index: u64, _log: &L) -> Result<[crate::index::Entry; 64]> {
+	unsafe {
+		if RB_CALLS == 0 {
+			RB_FIRST = chunk_index;
+		}
+		let k = if chunk_index == RB_FIRST { 0 } else { 1 };
+		RB_CALLS += 1;
+		Ok(std::mem::transmute::<[u64; 64], [crate::index::Entry; 64]>(RB_PAGE[k]))
+	}
+}
+#[kani::proof]
+#[kani::unwind(66)]
+#[kani::solver(kissat)]
+#[kani::stub(crate::index::IndexTable::entries, stub_entries_rb)]
+#[kani::stub(std::hash::RandomState::new, crate::verif_stubs::random_state_new)]
+#[kani::stub(parking_lot::RawRwLock::lock_shared_slow, crate::verif_stubs::lock_shared_slow)]
+#[kani::stub(parking_lot::RawRwLock::unlock_shared_slow, crate::verif_stubs::unlock_shared_slow)]
+#[kani::stub(parking_lot::RawRwLock::lock_exclusive_slow, crate::verif_stubs::lock_exclusive_slow)]
+#[kani::stub(parking_lot::RawRwLock::unlock_exclusive_slow, crate::verif_stubs::unlock_exclusive_slow)]
+#[kani::stub(std::fmt::format, crate::verif_stubs::fmt_format)]
+fn u20_reindex_batch_copies_every_live_entry_and_advances() {
+	// an old 16-bit index is queued behind a 17-bit current index; two chunks are left to migrate
+	let total = 1u64 << 16;
+	let mut queue = VecDeque::new();
+	queue.push_back(ReindexEntry::Index(crate::index::verif_index::mk_table(0, 16)));
+	let col = std::mem::ManuallyDrop::new(HashColumn {
+		col: 0,
+		tables: RwLock::new(Tables { index: crate::index::verif_index::mk_table(0, 17), value: Vec::new(), ref_count: None }),
+		reindex: RwLock::new(Reindex { queue, progress: AtomicU64::new(total - 2) }),
+		ref_count_cache: None,
+		path: std::path::PathBuf::new(),
+		preimage: false,
+		uniform_keys: false,
+		collect_stats: false,
+		ref_counted: false,
+		append_only: false,
+		salt: [0u8; 32],
+		stats: unsafe { std::mem::MaybeUninit::uninit().assume_init() },
+		compression: Compress::new(crate::compress::CompressionType::NoCompression, u32::MAX),
+		db_version: crate::options::CURRENT_VERSION,
+	});
+	// two arbitrary slots per chunk, the rest empty
+	let a: [u64; 4] = kani::any();
+	unsafe {
+		RB_PAGE = [[0; 64]; 2];
+		RB_PAGE[0][1] = a[0];
+		RB_PAGE[0][63] = a[1];
+		RB_PAGE[1][0] = a[2];
+		RB_PAGE[1][40] = a[3];
+		RB_CALLS = 0;
+	}
+	let log = std::mem::ManuallyDrop::new(crate::log::verif_log::mk_log());
+	let r = ok(col.reindex(&log));
+	let live = (a[0] != 0) as usize + (a[1] != 0) as usize + (a[2] != 0) as usize + (a[3] != 0) as usize;
+	match r {
+		None => assert!(false, "U20.reindex.no_error"),
+		Some(batch) => {
+			assert!(unsafe { RB_CALLS } == 2 && unsafe { RB_FIRST } == total - 2, "U20.reindex.resumes_at_recorded_progress_and_visits_each_chunk_once");
+			assert!(batch.batch.len() == live, "U20.reindex.batch_holds_every_live_entry_once");
+			// the k-th batch element is the k-th live entry: its address, and the key prefix recovered from (chunk, entry)
+			let order: [(u64, u64); 4] = [(total - 2, a[0]), (total - 2, a[1]), (total - 1, a[2]), (total - 1, a[3])];
+			let k: usize = kani::any();
+			kani::assume(k < live);
+			let mut seen = 0usize;
+			let mut j = 0;
+			let mut chunk = 0u64;
+			let mut ent = 0u64;
+			while j < 4 {
+				if order[j].1 != 0 {
+					if seen == k {
+						chunk = order[j].0;
+						ent = order[j].1;
+					}
+					seen += 1;
+				}
+				j += 1;
+			}
+			let src = crate::index::verif_index::mk_table(0, 16);
+			let e = crate::index::Entry::from_u64_verif(ent);
+			let exp_key = src.recover_key_prefix(chunk, e);
+			let q: usize = kani::any();
+			kani::assume(q < 32);
+			assert!(batch.batch[k].0[q] == exp_key[q], "U20.reindex.batch_key_is_recovered_prefix");
+			assert!(batch.batch[k].1.as_u64() == e.address(16).as_u64(), "U20.reindex.batch_address_is_entry_address");
+			assert!(col.reindex.read().progress.load(Ordering::Relaxed) == total, "U20.reindex.progress_advanced_past_processed_chunks");
+			assert!(batch.drop_index == Some(IndexTableId::new(0, 16)), "U20.reindex.old_index_dropped_only_when_fully_migrated");
+			assert!(batch.ref_count_batch.len() == 0 && batch.drop_ref_count.is_none(), "U20.reindex.ref_counts_untouched");
+			std::mem::forget(batch);
+			std::mem::forget(src);
+		},
+	}
+	kani::cover!(live == 4, "all four live");
+	kani::cover!(live == 1 && a[3] != 0, "only the last");
+}
+
 /*@@GENERATED:column@@*/
